@@ -273,9 +273,25 @@ func (f *v15ConnFactory) New(net.Addr) (net.PacketConn, error) {
 type v15Client struct {
 	n        int
 	user     string
-	c        client.Client
+	c        client.Client // stock client, or
+	raw      *v15Raw       // raw HTTP/3 client
 	addr     string
 	baseDisc int
+}
+
+func (c *v15Client) hangUp() {
+	if c.raw != nil {
+		c.raw.hangUp()
+		return
+	}
+	_ = c.c.Close()
+}
+
+func (c *v15Client) kind() string {
+	if c.raw != nil {
+		return "raw "
+	}
+	return ""
 }
 
 func v15WaitUntil(deadline time.Duration, cond func() bool) bool {
@@ -342,9 +358,16 @@ func TestVerifC15_OnlineE2E(t *testing.T) {
 		srvClosed := false
 		var live []*v15Client
 		var everyClient []client.Client
+		var everyRaw []*v15Raw
+		var idleRaw []*v15Client // raw connections that were never accepted: they must never count
+		maxRaw := rapid.IntRange(0, 2).Draw(rt, "rawClients")
+		ntReauth := false
 		defer func() {
 			for _, c := range everyClient {
 				_ = c.Close()
+			}
+			for _, r := range everyRaw {
+				r.release()
 			}
 			if !srvClosed {
 				_ = srv.Close()
@@ -380,7 +403,7 @@ func TestVerifC15_OnlineE2E(t *testing.T) {
 			for c := range classes {
 				cl = append(cl, c)
 			}
-			st.Case(ntDisc || ntKick, strings.Join(opKinds, ","), cl, render)
+			st.Case(ntDisc || ntKick || ntReauth, strings.Join(opKinds, ","), cl, render)
 		}()
 		checkMonitor := func() {
 			if v, _, _ := mon.snapshot(); v != "" {
@@ -533,8 +556,28 @@ func TestVerifC15_OnlineE2E(t *testing.T) {
 			if len(live) >= 6 {
 				cands[0].w = 0
 			}
+			var stock, raws []*v15Client
+			for _, c := range live {
+				if c.raw != nil {
+					raws = append(raws, c)
+				} else {
+					stock = append(stock, c)
+				}
+			}
 			if len(live) > 0 {
-				cands = append(cands, cand{"close", 4}, cand{"send", 7})
+				cands = append(cands, cand{"close", 4})
+			}
+			if len(stock) > 0 {
+				cands = append(cands, cand{"send", 7})
+			}
+			if len(everyRaw) < maxRaw && len(live) < 6 {
+				cands = append(cands, cand{"rawConnect", 4}, cand{"rawAuthRejected", 2})
+			}
+			if len(raws)+len(idleRaw) > 0 {
+				cands = append(cands, cand{"rawReauth", 7})
+			}
+			if len(idleRaw) > 0 {
+				cands = append(cands, cand{"rawCloseIdle", 2})
 			}
 			tot := 0
 			for _, c := range cands {
@@ -600,13 +643,135 @@ func TestVerifC15_OnlineE2E(t *testing.T) {
 				}
 			case "close":
 				c := live[rapid.IntRange(0, len(live)-1).Draw(rt, "which")]
-				_ = c.c.Close()
+				c.hangUp()
 				awaitDisconnect(c, "the client closed it")
-				note("close", "#%d(%q) closed by the client", c.n, c.user)
+				note("close", "%s#%d(%q) closed by the client", c.kind(), c.n, c.user)
 				removeLive(c)
 				classes["client-close"] = true
+				if c.raw != nil {
+					classes["raw-close"] = true
+				}
+			case "rawConnect", "rawAuthRejected":
+				var raw *v15Raw
+				var derr error
+				v15WithWatchdog("raw QUIC dial", func() { raw, derr = v15RawDial(pc.LocalAddr()) })
+				if derr != nil {
+					vInconclusive("C15 e2e: raw client: " + derr.Error())
+				}
+				everyRaw = append(everyRaw, raw)
+				nClients++
+				cl := &v15Client{n: nClients, raw: raw, addr: raw.addr}
+				user := rapid.SampledFrom(ids).Draw(rt, "user")
+				if cands[k].name == "rawAuthRejected" {
+					n := rapid.IntRange(1, 3).Draw(rt, "attempts")
+					for i := 0; i < n; i++ {
+						var status int
+						var aerr error
+						v15WithWatchdog("raw auth request", func() { status, aerr = raw.auth("no:" + user) })
+						if aerr != nil {
+							vInconclusive("C15 e2e: raw auth request failed: " + aerr.Error())
+						}
+						if status == v15StatusAuthOK {
+							vInconclusive("C15 e2e: a credential the authenticator rejects was answered 233 (not this property)")
+						}
+					}
+					note("rawAuthRejected", "raw #%d sends %d rejected auth requests for %q", cl.n, n, user)
+					classes["raw-rejected-only"] = true
+					if rapid.Bool().Draw(rt, "closeNow") {
+						raw.hangUp()
+						note("rawCloseIdle", "raw #%d (never accepted) closed", cl.n)
+					} else {
+						idleRaw = append(idleRaw, cl)
+					}
+					break
+				}
+				c0, d0, _ := ev.counts(cl.addr)
+				var status int
+				var aerr error
+				v15WithWatchdog("raw auth request", func() { status, aerr = raw.auth("ok:" + user) })
+				if aerr != nil {
+					vInconclusive("C15 e2e: raw auth request failed: " + aerr.Error())
+				}
+				if status != v15StatusAuthOK {
+					vInconclusive(fmt.Sprintf("C15 e2e: raw auth with a good credential answered %d", status))
+				}
+				if !v15WaitUntil(v15LiveDeadline, func() bool { cc, _, _ := ev.counts(cl.addr); return cc > c0 }) {
+					vInconclusive("C15 e2e: the server did not report the new raw connection within the liveness deadline")
+				}
+				cl.user, cl.baseDisc = user, d0
+				live = append(live, cl)
+				online[user]++
+				note("rawConnect", "raw #%d authenticates as %q -> 233", cl.n, user)
+				classes["raw-connect"] = true
+			case "rawReauth":
+				pool := append(append([]*v15Client{}, raws...), idleRaw...)
+				c := pool[rapid.IntRange(0, len(pool)-1).Draw(rt, "which")]
+				n := rapid.IntRange(1, 3).Draw(rt, "attempts")
+				for i := 0; i < n; i++ {
+					user := rapid.SampledFrom(ids).Draw(rt, "user")
+					good := rapid.Bool().Draw(rt, "good")
+					cred := "no:" + user
+					if good {
+						cred = "ok:" + user
+					}
+					wasCounted := c.user != "" || func() bool {
+						for _, l := range live {
+							if l == c {
+								return true
+							}
+						}
+						return false
+					}()
+					c0, d0, _ := ev.counts(c.addr)
+					var status int
+					var aerr error
+					v15WithWatchdog("raw auth request", func() { status, aerr = c.raw.auth(cred) })
+					if aerr != nil {
+						vInconclusive("C15 e2e: repeated raw auth request failed: " + aerr.Error())
+					}
+					note("rawReauth", "raw #%d (counted=%v as %q) sends another auth request: credential %q -> %d", c.n, wasCounted, c.user, cred, status)
+					if wasCounted {
+						// already counted: nothing it sends changes the number of connections
+						ntReauth = true
+						classes["reauth-on-authenticated-conn"] = true
+						if good && user != c.user {
+							classes["reauth-as-other-user"] = true
+						}
+						continue
+					}
+					if !good {
+						if status == v15StatusAuthOK {
+							vInconclusive("C15 e2e: a credential the authenticator rejects was answered 233 (not this property)")
+						}
+						continue
+					}
+					if status != v15StatusAuthOK {
+						vInconclusive(fmt.Sprintf("C15 e2e: raw auth with a good credential answered %d", status))
+					}
+					// first accepted auth of this connection: from now on it counts, once
+					if !v15WaitUntil(v15LiveDeadline, func() bool { cc, _, _ := ev.counts(c.addr); return cc > c0 }) {
+						vInconclusive("C15 e2e: the server did not report the new raw connection within the liveness deadline")
+					}
+					c.user, c.baseDisc = user, d0
+					for j := range idleRaw {
+						if idleRaw[j] == c {
+							idleRaw = append(idleRaw[:j], idleRaw[j+1:]...)
+							break
+						}
+					}
+					live = append(live, c)
+					online[user]++
+					classes["accepted-after-rejections"] = true
+				}
+			case "rawCloseIdle":
+				j := rapid.IntRange(0, len(idleRaw)-1).Draw(rt, "which")
+				c := idleRaw[j]
+				idleRaw = append(idleRaw[:j], idleRaw[j+1:]...)
+				c.raw.hangUp()
+				note("rawCloseIdle", "raw #%d (never accepted) closed", c.n)
+				classes["raw-close-never-accepted"] = true
 			case "send":
-				c := live[rapid.IntRange(0, len(live)-1).Draw(rt, "which")]
+				c := stock[rapid.IntRange(0, len(stock)-1).Draw(rt, "which")]
 				udp := rapid.IntRange(0, 2).Draw(rt, "udp") == 0
 				n := rapid.IntRange(1, 1100).Draw(rt, "n")
 				echo := rapid.Bool().Draw(rt, "echo")
@@ -661,6 +826,11 @@ func TestVerifC15_OnlineE2E(t *testing.T) {
 		}
 
 		// ---- the end: every remaining connection goes away
+		for _, c := range idleRaw {
+			c.raw.hangUp()
+			note("rawCloseIdle", "raw #%d (never accepted) closed", c.n)
+		}
+		idleRaw = nil
 		if endByShutdown && len(live) > 0 {
 			_ = srv.Close()
 			srvClosed = true
@@ -675,9 +845,9 @@ func TestVerifC15_OnlineE2E(t *testing.T) {
 		} else {
 			for len(live) > 0 {
 				c := live[len(live)-1]
-				_ = c.c.Close()
+				c.hangUp()
 				awaitDisconnect(c, "the client closed it")
-				note("close", "#%d(%q) closed by the client", c.n, c.user)
+				note("close", "%s#%d(%q) closed by the client", c.kind(), c.n, c.user)
 				removeLive(c)
 				census("after closing " + hist[len(hist)-1])
 			}
